@@ -157,8 +157,15 @@ func c17Exec(r *vf.Run, cfg c17Cfg, c *vf.Chooser) (keys, whats []string) {
 			conn.WriteStallAt = conn.Written + cfg.WS
 			return def
 		}
-		if c.Choose(ev.Pos(), 2) == 1 {
+		n := 2
+		if cfg.TLS == 0 && cfg.WS == 0 {
+			n = 3 // outside TLS also: the reply is fine, but from now on the peer does not read any more
+		}
+		switch c.Choose(ev.Pos(), n) {
+		case 1:
 			return refsmtp.Action{Kind: refsmtp.ActStall}
+		case 2:
+			conn.WriteStallAt = conn.Written
 		}
 		return def
 	}
@@ -327,7 +334,11 @@ func c17Exec(r *vf.Run, cfg c17Cfg, c *vf.Chooser) (keys, whats []string) {
 		after = "TLS-handshake"
 	}
 	if b.Op == "write" {
-		after = "DATA-content(write)"
+		if cfg.WS > 0 {
+			after = "DATA-content(write)"
+		} else {
+			after = after + "(write)"
+		}
 	}
 	// every time the client blocks during the call a deadline must be armed, and on the connection's virtual clock
 	// (which every resolved wait advances) none may lie later than call start + timeout + slack: a client that
@@ -442,7 +453,12 @@ func init() {
 					r.Eval(vf.Hash(fmt.Sprintf("%+v", cfg), fmt.Sprint(c.Picks)), c.Deviations() > 0 || cfg.HS > 0 || cfg.WS > 0)
 					if r.NSamples() < 5 && c.Deviations() == 1 && len(c.Picks) > 4 {
 						r.Sample(map[string]interface{}{"cfg": cfg, "entry": c17Entry[cfg.Entry], "tls": c17TLS[cfg.TLS], "auth": c17Auth[cfg.Auth],
-							"stall": c.Describe(func(l string, p int) string { return "stall at " + l })})
+							"stall": c.Describe(func(l string, p int) string {
+								if p == 2 {
+									return "peer stops reading after its reply to " + l
+								}
+								return "stall at " + l
+							})})
 					}
 					kase := c17Case{Cfg: cfg, Prefix: append([]int{}, c.Picks...)}
 					for j, k := range keys {
